@@ -16,6 +16,9 @@ def nontrivial(target, inp):
 
 
 def failure_class(target, inp, detail):
+    if target == 'C07.commute':
+        return '%s:%s' % (inp.get('kind'), 'limit-differs-from-converted-saturated-events' if 'limit' in str(detail) else
+                          'gate-does-not-commute' if 'gating' in str(detail) else str(detail)[:40])
     return str(detail)[:60]
 
 
@@ -215,12 +218,41 @@ def g_to_rfi(tier, rnd):
                         yield 'FlowCal.transform.to_rfi', w
 
 
+def g_c07(tier, rnd):
+    sels = [['FL1-H'], ['FSC-H', 'FL2-H'], ['FSC-H', 'FL1-H', 'FL2-H'], ['FL2-H', 'FL1-H']]
+    a0s = [1.0, 2.0, 3.0, 4.0, 4.5, 5.0, 6.0, 7.0, 8.0]
+    a1s = [1.0, 0.5, 10.0, 0.01]
+    rs = [256, 1000, 1024, 3000, 4096, 10000, 65536, 262144]
+    n = 0
+    for a0 in a0s:
+        for a1 in a1s:
+            for r in rs:
+                if tier == 'quick' and (n % 3):
+                    n += 1
+                    continue
+                n += 1
+                yield 'C07.commute', {'kind': 'rfi', 'a0': a0, 'a1': a1, 'resolution': r, 'gain': None, 'channels': sels[n % len(sels)]}
+    for g in (None, 1.0, 2.0, 3.0, 0.7):
+        for r in (256, 1024, 1000):
+            yield 'C07.commute', {'kind': 'rfi', 'a0': 0.0, 'a1': 0.0, 'resolution': r, 'gain': g, 'channels': sels[n % len(sels)]}
+            n += 1
+    reps = 150 if tier == 'quick' else 1500
+    for _ in range(reps):
+        yield 'C07.commute', {'kind': 'mef', 'm': round(rnd.uniform(0.85, 1.25), 4), 'b': round(rnd.uniform(0.0, 7.0), 4),
+                              'resolution': rnd.choice(rs[:5]), 'channels': rnd.choice(sels)}
+    if tier != 'quick':
+        for _ in range(1500):
+            yield 'C07.commute', {'kind': 'rfi', 'a0': round(rnd.uniform(0.5, 8), 3), 'a1': rnd.choice(a1s), 'resolution': rnd.choice(rs),
+                                  'gain': None, 'channels': rnd.choice(sels)}
+
+
 GENS = {
     'C08': [('start_end', g_start_end), ('high_low', g_high_low), ('ellipse', g_ellipse)],
     'C04': [('getitem', g_getitem), ('setitem', g_setitem)],
     'C20': [('finalize', g_finalize), ('file_eq', g_file_eq)],
     'C06': [('to_mef', g_to_mef)],
     'C03': [('to_rfi', g_to_rfi)],
+    'C07': [('commute', g_c07)],
 }
 
 BOUNDS = {
@@ -236,6 +268,11 @@ BOUNDS = {
 
 BOUNDS['C03'] = ('D<=3 (quick) / 4 (thorough): every ordered subset of columns by position, negative position and name; overrides '
                  'absent / per-entry optional (amplification type, gain, resolution drawn from small sets) / wrong length / non-iterable')
+
+
+BOUNDS['C07'] = ('integer samples with events at and next to both limits, 3 channels; amplifier lattice a0 in {1..8,4.5} x a1 in '
+                 '{1,0.5,10,0.01} x resolution in {256,1000,1024,3000,4096,10000,65536,262144} (every third point in quick), linear '
+                 'gains, seeded standard-curve parameters m in [0.85,1.25], b in [0,7]; comparison is exact (bitwise)')
 
 
 def generators(pid):
